@@ -80,7 +80,7 @@ def const_str(node, what):
 class Sel:
     """Translates the statements of gen_cluster_script that follow the `opts = {...}` literal."""
 
-    VARS = ("ids", "am", "run_start", "run_stop", "pieces", "rewrite")
+    VARS = ("ids", "am", "run_start", "run_stop", "pieces", "rewrite", "batch_ids")
 
     def __init__(self):
         self.rewrite_strings = None
@@ -92,6 +92,8 @@ class Sel:
             return "am"
         if isinstance(t, ast.Name) and t.id == "script":
             return "pieces"
+        if isinstance(t, ast.Name) and t.id == "batch_ids":
+            return "batch_ids"
         if (isinstance(t, ast.Subscript) and isinstance(t.value, ast.Name) and t.value.id == "opts"
                 and isinstance(t.slice, ast.Constant)):
             return {"batch_ids": "ids", "run_start": "run_start", "run_stop": "run_stop"}.get(t.slice.value) \
@@ -149,6 +151,9 @@ class Sel:
             return "(" + f" {op} ".join(self.cond(v, defined) for v in n.values) + ")"
         if isinstance(n, ast.UnaryOp) and isinstance(n.op, ast.Not):
             return f"(negb {self.cond(n.operand, defined)})"
+        if ast.unparse(n) == "isinstance(batch_ids, int)":
+            self.need("batch_ids", defined, n)
+            return "(arg_is_int batch_ids)"
         et = self.enum_test(n)
         if et:
             var, const, neg = et
@@ -160,7 +165,7 @@ class Sel:
             op, lhs, rhs = n.ops[0], n.left, n.comparators[0]
             if isinstance(op, (ast.Is, ast.IsNot)):
                 if ast.unparse(lhs) == "batch_ids" and isinstance(rhs, ast.Constant) and rhs.value is None:
-                    return "(negb (opt_is_some batch_ids))" if isinstance(op, ast.Is) else "(opt_is_some batch_ids)"
+                    return "(negb (arg_is_some batch_ids))" if isinstance(op, ast.Is) else "(arg_is_some batch_ids)"
                 self.refuse(n, "identity test")
             sym = {ast.Eq: "=?", ast.Lt: "<?", ast.LtE: "<=?", ast.Gt: ">?", ast.GtE: ">=?"}.get(type(op))
             if isinstance(op, ast.NotEq):
@@ -174,7 +179,7 @@ class Sel:
     def ids_value(self, n, defined):
         txt = ast.unparse(n)
         if txt == "tuple(batch_ids)":
-            return "(IdsList (req_ids batch_ids))"
+            return "(IdsList (arg_ids batch_ids))"
         if txt == "crop.missing_results()":
             return "(IdsList missing)"
         if isinstance(n, ast.Call) and ast.unparse(n.func) == "range" and len(n.args) == 2 and not n.keywords:
@@ -235,6 +240,11 @@ class Sel:
                 return [f"let {var} := Some {self.zexpr(s.value, defined)} in"], defined | {var}
             if var == "pieces":
                 return [f"let pieces := [{self.piece(s.value)}] in"], defined | {"pieces"}
+            if var == "batch_ids":
+                # only the normalisation of the int spelling: batch_ids = (batch_ids,)
+                if ast.unparse(s.value) != "(batch_ids,)":
+                    self.refuse(s, "batch_ids reassigned to something other than (batch_ids,)")
+                return ["let batch_ids := arg_singleton batch_ids in"], defined
         if isinstance(s, ast.AugAssign) and isinstance(s.op, ast.Add) and self.target(s.target) == "pieces":
             self.need("pieces", defined, s)
             return [f"let pieces := app pieces [{self.piece(s.value)}] in"], defined
@@ -358,7 +368,7 @@ def selection(fn):
     if ast.unparse(tail[-1]) != "return script":
         raise Refused(tail[-1], "last statement is not `return script`")
     lines, defined = ["let run_start := @None Z in", "let run_stop := @None Z in", "let rewrite := false in"], \
-        {"run_start", "run_stop", "rewrite"}
+        {"run_start", "run_stop", "rewrite", "batch_ids"}
     for s in tail[:fmt[0]]:
         ls, defined = tr.stmt(s, defined)
         lines += ls
@@ -375,7 +385,7 @@ def selection(fn):
         raise Refused(fn, "no rewrite found")
     if not tr.dynamic_seen:
         raise Refused(fn, "single mode does not compute the missing ids dynamically")
-    gal = ["Definition gen_select (sc : scheduler) (md : mode) (batch_ids : option (list Z)) (num_results : Z)",
+    gal = ["Definition gen_select (sc : scheduler) (md : mode) (batch_ids : ids_arg) (num_results : Z)",
            "  (missing : list Z) (num_batches : Z) : selection :="]
     gal += ["  " + ln for ln in lines]
     gal += ["  mk_sel am run_start run_stop ids pieces rewrite.", ""]
